@@ -212,5 +212,34 @@ Faults(T, env, f) ==
     [] T.t = "app"   -> IF f = 0 THEN {} ELSE Faults(Instantiate(env, T.n, T.args), env, f - 1)
     [] OTHER -> {}
 
-Probe(T, env, fuel, cap) == Take(Cand(T, env, fuel), cap) \cup AtomPool \cup Take(Hostile(T, env, fuel), 16) \cup Take(Faults(T, env, fuel), 40)
+\* Rich members, never capped: members of T that use what the type allows beyond the minimum - an undeclared key admitted by
+\* the index signature, optional properties present and absent, containers with two entries - for every member of a union.
+RECURSIVE Rich(_, _, _)
+Rich(T, env, f) ==
+  CASE T.t = "obj" ->
+         LET n == Len(T.ps)
+             val(i) == Take(Rich(T.ps[i].ty, env, f), 1) \cup Mem1(T.ps[i].ty, env, f)
+             ok == \A i \in 1..n : val(i) # {}
+             full == [i \in 1..n |-> P(T.ps[i].key, CHOOSE m \in val(i) : TRUE)]
+             req == SelectSeq(full, LAMBDA p : \E i \in 1..n : T.ps[i].key = p.key /\ ~T.ps[i].opt)
+         IN IF ~ok THEN {} ELSE
+            {VObj(full), VObj(req)}
+            \cup (IF T.ix = <<>> THEN {} ELSE {VObj(full \o <<P("zk1", m)>>) : m \in Mem1(T.ix[1].vt, env, f)}
+                                              \cup {VObj(req \o <<P("zk1", m), P("zk2", m)>>) : m \in Mem1(T.ix[1].vt, env, f)})
+    [] T.t = "arr"   -> {VArr(<<m, m>>) : m \in Take(Rich(T.e, env, f), 1) \cup Mem1(T.e, env, f)}
+    [] T.t = "tuple" -> LET n == Len(T.es)
+                            val(i) == Take(Rich(T.es[i], env, f), 1) \cup Mem1(T.es[i], env, f)
+                        IN IF \E i \in 1..n : val(i) = {} THEN {}
+                           ELSE LET b == [i \in 1..n |-> CHOOSE m \in val(i) : TRUE] IN
+                                {VArr(b)} \cup (IF T.r = <<>> THEN {} ELSE {VArr(b \o <<m, m>>) : m \in Mem1(T.r[1], env, f)})
+    [] T.t = "map"   -> {VMap(<<E(VStr("k1"), m), E(VStr("k2"), m)>>) : m \in Mem1(T.vt, env, f)}
+    [] T.t = "set"   -> {VSet(<<m>>) : m \in Mem1(T.e, env, f)}
+    [] T.t = "union" -> UNION {Rich(T.ms[i], env, f) : i \in DOMAIN T.ms}
+    [] T.t = "inter" -> {x \in UNION {Rich(b, env, f) : b \in Take(Branches(T, env), 3)} : M3(x, T, env, {}, FALSE) = "T"}
+    [] T.t = "ref"   -> IF f = 0 THEN {} ELSE Rich(Lookup(env, T.n), env, f - 1)
+    [] T.t = "deco"  -> Rich(T.a, env, f)
+    [] T.t = "app"   -> IF f = 0 THEN {} ELSE Rich(Instantiate(env, T.n, T.args), env, f - 1)
+    [] OTHER -> Mem1(T, env, f)
+
+Probe(T, env, fuel, cap) == Take(Cand(T, env, fuel), cap) \cup AtomPool \cup Take(Hostile(T, env, fuel), 16) \cup Take(Faults(T, env, fuel), 40) \cup Take(Rich(T, env, fuel), 24)
 =============================================================================
